@@ -18,7 +18,7 @@ from ..law import Law, Violation, Skip
 from ..values import dec, enc, CODES9
 
 RULE = 'C01: arbitrary Unicode strings, token soups, truncated/unbalanced formulas; every supported function at arity 0..4 over a 24-value pool; host callbacks that return or raise anything; coverage-guided byte fuzzing'
-ASSUMPTIONS = ['"bounded time" = at most 50000 + 2000*len(text) + 200*size(operands) Python line events inside hotxlfp/ply; CPU time inside C big-integer or regex primitives is not observable this way, literal exponents and factorial arguments are kept small',
+ASSUMPTIONS = ['"bounded time" = at most 50000 + 2000*len(text) + 200*size(operands) Python line events inside hotxlfp/ply; cost hidden inside C primitives (the regex scanner) is bounded separately by the repetitive law: 2 s of thread CPU time for inputs of at most ~110 characters, a factor of about 2000 above normal; literal exponents and factorial arguments are kept small',
                'host faults are Exception subclasses (KeyboardInterrupt/SystemExit/GeneratorExit propagate by Python convention)',
                'fuzzing campaigns are pinned by -seed/-runs only approximately; the saved crashing input is the reproducible unit']
 
@@ -163,6 +163,38 @@ def string_nontrivial(case):
 
 def string_classes(case):
     return ('gen:' + case[0],)
+
+
+# ---------------------------------------------------------------- repetitive inputs (cost hidden inside C primitives)
+
+FRAGMENTS = ['\\x', '\\\\', '\\"', "\\'", '""', "''", 'a.', '(', ')', '1.', '.1', '$A', 'A$', '#', '"\\', '.5', '<>', 'A1:', ' ', '\t', '%', '^2', '_a', '.a', 'a_', '1e', '-', '{', ',', ';', '!', 'é', 'A1', 'x(', 'N/A', '#N/A', '&"']
+patho_case = st.fixed_dictionaries({'prefix': st.sampled_from(['', '"', "'", 'SUM(', 'CONCATENATE("', "LEN('", '=', '{', '1+']), 'frag': st.sampled_from(FRAGMENTS), 'frag2': st.sampled_from([''] + FRAGMENTS),
+                                    'n': st.integers(1, 25), 'suffix': st.sampled_from(['', '"', "'", ')', '")', '}', '+1'])})
+CPU_LIMIT_S = 2.0
+
+
+def patho_text(c):
+    return c['prefix'] + (c['frag'] + c['frag2']) * c['n'] + c['suffix']
+
+
+def check_patho(case):
+    import time
+    text = patho_text(case)
+    if bigcost(text):
+        raise Skip('big-integer-cost')
+    P = make_parser()
+    t0 = time.thread_time()
+    try:
+        r = P.parse(text)
+    except Exception as e:
+        raise Violation('parse(%r) raised %s: %s' % (text, type(e).__name__, _safe(e)), type(e).__name__, 'returns a record')
+    dt = time.thread_time() - t0
+    m = well_formed(r)
+    if m:
+        raise Violation('parse(%r) -> %s' % (text, m), _safe_repr(r), 'well-formed record')
+    if dt > CPU_LIMIT_S:
+        raise Violation('parse of a %d-character input (%r repeated %d times after %r) used %.1f s of CPU time; ordinary inputs of this length take about a millisecond' % (len(text), case['frag'] + case['frag2'], case['n'], case['prefix'], dt),
+                        round(dt, 2), 'about 0.001 s')
 
 
 # ---------------------------------------------------------------- arity sweep
@@ -442,6 +474,11 @@ LAWS = [
         required=('gen:unicode', 'gen:soup', 'gen:mutated', 'gen:valid'),
         rule='(a) arbitrary Unicode text incl. surrogates and NUL up to 200 characters, (b) soups of 1-30 lexemes of every token class plus characters the lexer has no rule for, (c) valid generated formulas truncated / with a token deleted, duplicated, swapped or an unbalanced bracket or quote inserted, (d) valid formulas: '
              'parse returns within the step budget a record {result, error} with a canonical or empty error, an empty result when the error is set, and never an error object as result; non-trivial = at least 3 characters'),
+    Law('repetitive', check_patho, strategy=patho_case, quick=3000, thorough=60000, shards=(16, 16), shrink=False,
+        key=lambda c: 'cpu-time', nontrivial=lambda c: c['n'] >= 8,
+        classes=lambda c: (('unterminated-quote' if c['prefix'][-1:] in ('"', "'") and not c['suffix'][:1] in ('"', "'") else 'other'), 'n>=20' if c['n'] >= 20 else 'n<20'), required=('unterminated-quote', 'n>=20'),
+        rule='a fragment of 1-4 characters (backslash pairs, quotes, dots, brackets, markers, operators ...) repeated 1-25 times after an opening context (an open quote, SUM(, ...) and before an optional closer - the shape that makes a backtracking '
+             'token pattern explode: the record is well-formed and the evaluation uses at most 2 s of CPU time of its thread (ordinary inputs of that length take ~1 ms; CPU time, not wall clock, so machine load does not enter)'),
     Law('arity_sweep', check_arity, enumerate=enum_arity, key=arity_key, shards=(16, 16), exhaustive=False,
         rule='every name of formulas.supported() x arity 0, 1, 2 in full over a pool of 24 values holding one or more of every type (blank, logicals, integers, floats incl. inf/nan, text, numeric text, date text, a date-time, flat / 2-D / empty arrays, an error value) '
              'plus deterministic samples of arity 3 (all 13824 tuples per function in thorough) and arity 4; same oracle, every call under the step budget'),
